@@ -81,6 +81,14 @@ def takesIds : Op → Bool
   | .acquire | .register _ | .restorePackets _ => true
   | _ => false
 
+/-- `release_packet_id` (fix ba1a812): beyond `releaseIfUsed` only wait sets and the counter change -/
+theorem releasePacketId_q (c : C) (id : Nat) : Quiet (releaseIfUsed c id) (releasePacketId c id) :=
+  releasePacketId_ind (Q := fun c' => Quiet (releaseIfUsed c id) c') c id (Quiet.refl _)
+    (fun _ => ⟨rfl, rfl, rfl⟩) (fun h => h.trans (decSendCount_q _))
+
+theorem releasePacketId_eff {c : C} (h : Wf c) (id : Nat) : Eff false c (releasePacketId c id) :=
+  (releaseIfUsed_eff h id).quiet_right (releasePacketId_q c id)
+
 theorem step_eff {cfg : Cfg} {s : St} (h : Wf { cfg := cfg, s := s }) (op : Op) (hg : takesIds op = false) :
     Eff (startsNewSession cfg s op) { cfg := cfg, s := s } (step cfg s op) := by
   cases op with
@@ -93,7 +101,7 @@ theorem step_eff {cfg : Cfg} {s : St} (h : Wf { cfg := cfg, s := s }) (op : Op) 
   | setRespTimeout ms => exact Eff.of_quiet h ⟨rfl, rfl, rfl⟩
   | acquire => simp [takesIds] at hg
   | register id => simp [takesIds] at hg
-  | release id => exact releaseIfUsed_eff h id
+  | release id => exact releasePacketId_eff h id
   | erase id => exact eraseStoredPublish_eff h id
   | restoreHandled ids => exact Eff.of_quiet h ⟨rfl, rfl, rfl⟩
   | restorePackets ps => simp [takesIds] at hg
